@@ -28,7 +28,7 @@ def _(data: Str) -> Opt[Tuple[Int, Int]]:
                     and opt_val(result)[1] == opt_val(result)[0] + nl_len(data, opt_val(result)[0])), 'first_break_crlf_as_one')
 
 
-@contract('csv_utils.extract_line_from_data', name='C12.extract_line', props=['C12'])
+@contract('csv_utils.extract_line_from_data', name='C12.extract_line', props=['C12', 'C10'])
 def _(data: Str) -> Tuple[Opt[Str], Opt[Str], Str]:
     ensures(implies(first_nl(data, 0) == -1, is_none(result[0]) and is_none(result[1]) and result[2] == data), 'no_break')
     ensures(implies(first_nl(data, 0) != -1, not is_none(result[0]) and opt_val(result[0]) == data[:first_nl(data, 0)]
@@ -36,7 +36,7 @@ def _(data: Str) -> Tuple[Opt[Str], Opt[Str], Str]:
                     and result[2] == data[first_nl(data, 0) + nl_len(data, first_nl(data, 0)):]), 'split_at_first_break')
 
 
-@contract('rbql_csv.remove_utf8_bom', name='C12.bom', props=['C12', 'C14'])
+@contract('rbql_csv.remove_utf8_bom', name='C12.bom', props=['C12', 'C14', 'C10'])
 def _(line: Str, assumed_source_encoding: Opt[Str]) -> Str:
     ensures(implies(not is_none(assumed_source_encoding) and opt_val(assumed_source_encoding) == 'utf-8' and len(line) >= 1 and line[0] == '﻿', result == line[1:]), 'utf8_bom_dropped')
     ensures(implies(not is_none(assumed_source_encoding) and opt_val(assumed_source_encoding) == 'latin-1' and len(line) >= 3 and line[:3] == '\xef\xbb\xbf', result == line[3:]), 'latin1_bom_dropped')
@@ -51,7 +51,7 @@ def rest(self):
     return self.buffer + self.stream.unread
 
 
-@contract('rbql_csv.CSVRecordIterator._get_row_from_buffer', name='C12.row_from_buffer', props=['C12'])
+@contract('rbql_csv.CSVRecordIterator._get_row_from_buffer', name='C12.row_from_buffer', props=['C12', 'C10'])
 def _(self: Obj['rbql_csv.CSVRecordIterator']) -> Opt[Str]:
     uses(first_nl_prefix(self.buffer, self.stream.unread, 0, len(self.buffer)))
     uses(first_nl_props(self.buffer, 0, len(self.buffer)))
@@ -65,7 +65,7 @@ def _(self: Obj['rbql_csv.CSVRecordIterator']) -> Opt[Str]:
     modifies(field(self, 'buffer'), field(self, 'detected_line_separator'), self.stream)
 
 
-@contract('rbql_csv.CSVRecordIterator._read_until_found', name='C12.read_until_found', props=['C12'])
+@contract('rbql_csv.CSVRecordIterator._read_until_found', name='C12.read_until_found', props=['C12', 'C10'])
 def _(self: Obj['rbql_csv.CSVRecordIterator']):
     requires(self.chunk_size >= 1, 'positive_chunk_size')
     requires(implies(self.exhausted, len(self.stream.unread) == 0), 'exhausted_means_nothing_left')
@@ -91,7 +91,7 @@ def reader_inv(self):
     return self.chunk_size >= 1 and implies(self.exhausted, len(self.stream.unread) == 0)
 
 
-@contract('rbql_csv.CSVRecordIterator.get_row_simple', name='C12.row', props=['C12', 'C15', 'C14'])
+@contract('rbql_csv.CSVRecordIterator.get_row_simple', name='C12.row', props=['C12', 'C15', 'C14', 'C10'])
 def _(self: Obj['rbql_csv.CSVRecordIterator']) -> Opt[Str]:
     requires(reader_inv(self), 'inv')
     # a function of the remaining content alone: the first line (LF | CR | CRLF, or an unterminated last line)
@@ -147,7 +147,7 @@ def rec_iter_inv(self):
             and implies(self.policy == 'simple', len(self.delim) >= 1))
 
 
-@contract('rbql_csv.CSVRecordIterator.get_record', name='C12.record', props=['C12', 'C09', 'C14'], store_policy='none')
+@contract('rbql_csv.CSVRecordIterator.get_record', name='C12.record', props=['C12', 'C09', 'C14', 'C10'], store_policy='none')
 def _(self: Obj['rbql_csv.CSVRecordIterator']) -> Opt[List[Str]]:
     requires(rec_iter_inv(self), 'inv')
     loop_types(0, line=Opt[Str])
@@ -177,7 +177,11 @@ def _(self: Obj['rbql_csv.CSVRecordIterator']) -> Opt[List[Str]]:
     ensures(implies(not old(self.first_record_should_be_emitted) and not is_none(result), self.NR == old(self.NR) + 1 and is_fresh(result)), 'record_counter')
     # C14: the first record of each field count is remembered
     ensures(implies(not old(self.first_record_should_be_emitted) and not is_none(result),
-                    has_key(self.fields_info, len(result)) and self.fields_info[len(result)] == (old(self.fields_info)[len(result)] if has_key(old(self.fields_info), len(result)) else self.NR)), 'first_record_of_each_field_count')
+                    forall(Int, lambda n: implies(old(has_key(self.fields_info, n)), has_key(self.fields_info, n) and self.fields_info[n] == old(self.fields_info[n])))), 'earlier_first_records_kept')
+    ensures(implies(not old(self.first_record_should_be_emitted) and not is_none(result),
+                    forall(Int, lambda n: implies(n == len(result) and not old(has_key(self.fields_info, n)), has_key(self.fields_info, n) and self.fields_info[n] == self.NR))), 'first_record_of_each_field_count')
+    ensures(implies(not old(self.first_record_should_be_emitted) and not is_none(result),
+                    forall(Int, lambda n: implies(n != len(result), has_key(self.fields_info, n) == old(has_key(self.fields_info, n))))), 'no_other_field_count_recorded')
     ensures(implies(not old(self.first_record_should_be_emitted) and not is_none(result) and is_none(old(self.first_defective_line))
                     and record_warn(data_row(old(rest(self)), self.policy == 'quoted_rfc', old(self.NL) == 0, self.encoding, self.comment_prefix), self.delim, self.policy),
                     not is_none(self.first_defective_line) and opt_val(self.first_defective_line) == self.NL), 'first_defective_line_recorded')
@@ -223,3 +227,13 @@ def _(self: Obj['rbql_csv.CSVRecordIterator'], modifier: Str):
 @contract('rbql_csv.CSVRecordIterator.get_header', name='C09.csv.get_header', props=['C09', 'C07'])
 def _(self: Obj['rbql_csv.CSVRecordIterator']) -> Opt[List[Str]]:
     ensures(implies(self.has_header, same(result, self.first_record)) and implies(not self.has_header, is_none(result)), 'first_record_iff_has_header')
+
+
+@contract('rbql_csv.CSVRecordIterator.get_warnings', name='C14.csv.warnings', props=['C14'])
+def _(self: Obj['rbql_csv.CSVRecordIterator']) -> List[Str]:
+    local_types(result=List[Str])
+    # exact: each warning is reported iff its flag was raised while reading (BOM stripped; a defectively quoted line; two field counts)
+    ensures(('UTF-8 Byte Order Mark (BOM) was found and skipped in ' + self.table_name + ' table' in contents(result)) == self.utf8_bom_removed, 'bom_warning_iff_bom_was_removed')
+    ensures(('Inconsistent double quote escaping in ' + self.table_name + ' table. E.g. at line ' + str_of_int(opt_val(self.first_defective_line)) in contents(result))
+            == (not is_none(self.first_defective_line)), 'quoting_warning_iff_a_defective_line_was_seen')
+    ensures(len(result) == (1 if self.utf8_bom_removed else 0) + (0 if is_none(self.first_defective_line) else 1) + (1 if len(keys(self.fields_info)) > 1 else 0), 'nothing_else')
